@@ -3,6 +3,7 @@ import GridVerif.Model.Elem
 import GridVerif.Model.RTransform
 import GridVerif.Gen.RTransform
 import GridVerif.Model.Transform1D
+import GridVerif.Model.Transform1DGen
 
 /-
   Driver ops of property C04: the model `Model/Transform1D.lean` at `K = Float`, the transform
@@ -13,7 +14,13 @@ import GridVerif.Model.Transform1D
         `tfLo tfHi` = `tf.domain` of the implementation (may be infinite); the model uses the generated
         domain of the class and answers `domain-differs <lo> <hi>` when the two are not the same numbers
     C04.onedgrid <hasDomain 0|1> <lo> <hi> <pts> <wts>
-        the `OneDGrid` constructor alone
+        the `OneDGrid` constructor alone (1-D array of points)
+    C04.onedgrid_nd <points.ndim> <hasDomain 0|1> <lo> <hi> <pts> <wts>
+        the same with `points.ndim` given (`pts` = the entries of the flattened array)
+
+  Round 3: both ops run the constructor **generated** from `OneDGrid.__init__` (`Gen/OneDGridInit.lean`), and
+  `C04.transform` runs `transform1dGridGen` (the model ending in the generated constructor;
+  `Props/C04/Constructor.lean` proves it equal to `transform1dGrid` for every carrier).
 
   Answers: `ok <pts> <wts> <hasDomain> <lo> <hi>` | `type-error` | `value-error` | `zero-division-error`.
 -/
@@ -95,13 +102,20 @@ def handle : List String → Option String
     if tl ≠ [] then none else
     match ← mkTf inv cls ps trim tfLo tfHi with
     | .error e => pure e
-    | .ok tf => pure (answer (transform1dGrid tf { pts := pts, wts := wts, domain := dom }))
+    | .ok tf => pure (answer (transform1dGridGen tf { pts := pts, wts := wts, domain := dom }))
   | "C04.onedgrid" :: has :: lo :: hi :: rest => do
     let dom ← pDomain has lo hi
     let (pts, tl) ← pVec pFloat rest
     let (wts, tl) ← pVec pFloat tl
     if tl ≠ [] then none else
-    pure (answer (oneDGridNew pts wts dom))
+    pure (answer (GridVerif.Gen.OneDGridInit.init 1 pts wts dom))
+  | "C04.onedgrid_nd" :: ndim :: has :: lo :: hi :: rest => do
+    let ndim ← ndim.toNat?
+    let dom ← pDomain has lo hi
+    let (pts, tl) ← pVec pFloat rest
+    let (wts, tl) ← pVec pFloat tl
+    if tl ≠ [] then none else
+    pure (answer (GridVerif.Gen.OneDGridInit.init ndim pts wts dom))
   | _ => none
 
 end GridVerif.Driver.C04
